@@ -276,6 +276,9 @@ class GridWeighted(Grid):
         :getter: Gets the weights vector
         :setter: Sets the weights vector
         """
+        # Generate default weights if they haven't been set (the weighted grid points carry them)
+        if not self._weights and self._grid_points:
+            self._weights = [1.0 for _ in range(len(self))]
         return self._weights
 
     @weight.setter
